@@ -199,3 +199,148 @@ Proof.
   unfold lcanon_field. rewrite Hn. cbn [andb]. apply lvalue_lcanon; [exact Hv|].
   destruct (ends_lf (snd kv)) eqn:Ee; [|reflexivity]. assert (Hx : existsb (fun kv => ends_lf (snd kv)) (f0 :: q') = true) by (apply existsb_exists; exists kv; auto). congruence.
 Qed.
+
+(* ------------------------------------------------------------------ (R1) *)
+Definition cont_text' (c : str) : str := 32%N :: c ++ [LF].
+Definition cont_toks' (c : str) : list token := (INDENT, [32%N]) :: opt_tok VALUE c ++ [(NEWLINE, [LF])].
+Definition field_text' (n l1 : str) (rest : list str) : str := n ++ [58%N; 32%N] ++ l1 ++ [LF] ++ flat_map cont_text' rest.
+Definition field_toks' (n l1 : str) (rest : list str) : list token :=
+  (KEY, n) :: (COLON, [58%N]) :: (WHITESPACE, [32%N]) :: opt_tok VALUE l1 ++ (NEWLINE, [LF]) :: flat_map cont_toks' rest.
+
+(* the printed field *)
+Lemma lcanon_lines v l1 rest : split_lf v = l1 :: rest -> canon_first l1 = true -> forallb lcanon_cont rest = true ->
+  last_nonempty rest = true -> v <> [] -> lines v = l1 :: rest.
+Proof.
+  intros Es H1 Hr Hl Hne. pose proof (join_split_lf v) as Hj. rewrite Es in Hj. rewrite <- Hj. apply lines_join.
+  - cbn [forallb]. unfold canon_first in H1. apply andb_true_iff in H1. destruct H1 as [H1 _]. rewrite H1. cbn [andb].
+    apply forallb_forall. intros c Hc. rewrite forallb_forall in Hr. apply lcont_no_eol, Hr, Hc.
+  - destruct rest as [|c r]; [cbn [last]; cbn [join] in Hj; congruence|]. change (last (l1 :: c :: r) [1%N]) with (last (c :: r) [1%N]).
+    unfold last_nonempty in Hl.
+    destruct (rev (c :: r)) as [|z zs] eqn:Er; [apply (f_equal (@rev str)) in Er; rewrite rev_involutive in Er; discriminate|].
+    assert (Hlast : last (c :: r) [1%N] = z).
+    { apply (f_equal (@rev str)) in Er. rewrite rev_involutive in Er. cbn [rev] in Er. rewrite Er. apply last_last. }
+    rewrite Hlast. destruct z; [discriminate|discriminate].
+Qed.
+
+Lemma print_field_lcanon n v l1 rest : split_lf v = l1 :: rest -> canon_first l1 = true -> forallb lcanon_cont rest = true ->
+  last_nonempty rest = true -> print_field (n, v) = field_text' n l1 rest.
+Proof.
+  intros Es H1 Hr Hl. unfold print_field, field_text'. destruct v as [|ch v'] eqn:Ev.
+  - cbn in Es. injection Es as <- <-. reflexivity.
+  - rewrite <- Ev in *. rewrite (lcanon_lines v l1 rest Es H1 Hr Hl) by (rewrite Ev; discriminate).
+    pose proof (join_split_lf v) as Hj. rewrite Es in Hj. destruct rest as [|c r].
+    + cbn [length Nat.ltb Nat.leb flat_map]. cbn [join] in Hj. subst l1. rewrite app_nil_r. reflexivity.
+    + cbn [length]. change (Nat.ltb 1 (S (S (length r)))) with true. cbv iota. cbn [flat_map]. unfold cont_text'. cbn [app].
+      rewrite <- !app_assoc. reflexivity.
+Qed.
+
+(* lexing a printed field *)
+Lemma cont_text_cons c r tail : flat_map cont_text' (c :: r) ++ tail = [32%N] ++ (c ++ (LF :: (flat_map cont_text' r ++ tail))).
+Proof. cbn [flat_map]. unfold cont_text' at 1. cbn [app]. rewrite <- !app_assoc. reflexivity. Qed.
+Lemma cont_toks_cons c r ts : flat_map cont_toks' (c :: r) ++ ts = (INDENT, [32%N]) :: (opt_tok VALUE c ++ ((NEWLINE, [LF]) :: (flat_map cont_toks' r ++ ts))).
+Proof. cbn [flat_map]. unfold cont_toks' at 1. cbn [app]. rewrite <- !app_assoc. reflexivity. Qed.
+
+Lemma lexf_conts' rest : forall tail ts, forallb lcanon_cont rest = true -> lexf st_init tail = Ok ts ->
+  lexf st_init (flat_map cont_text' rest ++ tail) = Ok (flat_map cont_toks' rest ++ ts).
+Proof.
+  induction rest as [|c r IH]; intros tail ts Hr Ht; [exact Ht|]. cbn [forallb] in Hr. apply andb_true_iff in Hr. destruct Hr as [Hc Hr].
+  rewrite cont_text_cons, cont_toks_cons.
+  unfold lcanon_cont in Hc. apply andb_true_iff in Hc. destruct Hc as [Hn Hh].
+  apply lexf_indent; [discriminate|reflexivity| |].
+  - destruct c as [|x c']; [cbn; reflexivity|]. cbn [app]. cbn. apply andb_true_iff in Hh. destruct Hh as [Hh _]. apply negb_true_iff in Hh. exact Hh.
+  - apply lexf_value; [right; reflexivity|exact Hn| |cbn; reflexivity|].
+    + destruct c as [|x c']; [exact I|]. apply andb_true_iff in Hh. destruct Hh as [H1 H2]. apply negb_true_iff in H1. apply negb_true_iff in H2. split; [exact H1|intros _; exact H2].
+    + apply lexf_lf; [tauto|]. apply IH; assumption.
+Qed.
+
+Lemma field_text_shape n l1 rest tail : field_text' n l1 rest ++ tail = n ++ (58%N :: ([32%N] ++ (l1 ++ (LF :: (flat_map cont_text' rest ++ tail))))).
+Proof. unfold field_text'. rewrite <- !app_assoc. reflexivity. Qed.
+Lemma field_toks_shape n l1 rest ts : field_toks' n l1 rest ++ ts =
+  (KEY, n) :: (COLON, [58%N]) :: (opt_tok WHITESPACE [32%N] ++ (opt_tok VALUE l1 ++ ((NEWLINE, [LF]) :: (flat_map cont_toks' rest ++ ts)))).
+Proof. unfold field_toks'. cbn [app opt_tok]. rewrite <- !app_assoc. reflexivity. Qed.
+
+Lemma lexf_field' n l1 rest tail ts : valid_name n = true -> canon_first l1 = true -> forallb lcanon_cont rest = true ->
+  lexf st_init tail = Ok ts -> lexf st_init (field_text' n l1 rest ++ tail) = Ok (field_toks' n l1 rest ++ ts).
+Proof.
+  intros Hn H1 Hr Ht. rewrite field_text_shape, field_toks_shape.
+  apply lexf_key; [exact Hn|cbn; reflexivity|]. apply lexf_colon.
+  unfold canon_first in H1. apply andb_true_iff in H1. destruct H1 as [H1n H1i].
+  apply lexf_ws; [reflexivity| |].
+  - destruct l1 as [|x l']; [cbn; reflexivity|]. cbn [app]. cbn. apply negb_true_iff in H1i. exact H1i.
+  - apply lexf_value; [left; reflexivity|exact H1n| |cbn; reflexivity|].
+    + destruct l1 as [|x l']; [exact I|]. apply negb_true_iff in H1i. split; [exact H1i|discriminate].
+    + apply lexf_lf; [tauto|]. apply lexf_conts'; assumption.
+Qed.
+
+(* reading the tokens of a printed field *)
+Lemma first_line_opt l1 r : first_line (opt_tok VALUE l1 ++ (NEWLINE, [LF]) :: r) [] = Ok (l1, r).
+Proof. destruct l1; reflexivity. Qed.
+
+Lemma conts_toks' rest : forall fuel acc X, length rest <= fuel -> cur X <> Some INDENT ->
+  conts fuel (flat_map cont_toks' rest ++ X) acc = Ok (acc ++ flat_map (fun c => c ++ [LF]) rest, X).
+Proof.
+  induction rest as [|c r IH]; intros fuel acc X Hf HX.
+  - cbn [flat_map app]. rewrite app_nil_r. destruct X as [|[k s] X']; [destruct fuel; reflexivity|].
+    destruct k; try (destruct fuel; reflexivity). cbn in HX. congruence.
+  - destruct fuel as [|f]; [cbn in Hf; lia|]. rewrite cont_toks_cons. cbn [conts].
+    assert (Hcl : cont_line (opt_tok VALUE c ++ (NEWLINE, [LF]) :: (flat_map cont_toks' r ++ X)) acc = Ok ((acc ++ c) ++ [LF], flat_map cont_toks' r ++ X)).
+    { destruct c as [|x c']; cbn [opt_tok app cont_line]; [rewrite app_nil_r|]; reflexivity. }
+    rewrite Hcl. rewrite (IH f _ X) by (cbn in Hf; lia || exact HX). cbn [flat_map]. rewrite <- !app_assoc. reflexivity.
+Qed.
+
+Lemma conts_toks_len rest X : length rest <= length (flat_map cont_toks' rest ++ X).
+Proof. induction rest as [|c r IH]; [cbn; lia|]. rewrite cont_toks_cons. cbn [length]. rewrite app_length. cbn [length]. lia. Qed.
+
+Lemma read_field' n l1 rest X : cur X <> Some INDENT ->
+  read_field n ((COLON, [58%N]) :: (opt_tok WHITESPACE [32%N] ++ (opt_tok VALUE l1 ++ ((NEWLINE, [LF]) :: (flat_map cont_toks' rest ++ X)))))
+  = Ok ((n, join [LF] (l1 :: rest)), X).
+Proof.
+  intros HX. unfold read_field. cbn [opt_tok app skip_ws_tokens].
+  assert (Hsk : forall Y, skip_ws_tokens (match l1 with [] => [] | _ :: _ => [(VALUE, l1)] end ++ (NEWLINE, [LF]) :: Y) = opt_tok VALUE l1 ++ (NEWLINE, [LF]) :: Y).
+  { intros Y. destruct l1; reflexivity. }
+  rewrite Hsk, first_line_opt. rewrite (conts_toks' rest _ (l1 ++ [10%N]) X); [|apply conts_toks_len|exact HX].
+  f_equal. f_equal. f_equal. change (l1 ++ [10%N]) with (l1 ++ [LF]).
+  change ((l1 ++ [LF]) ++ flat_map (fun c => c ++ [LF]) rest) with (done_lines l1 rest). apply strip_nl_done.
+Qed.
+
+Definition field_parts (f : str * str) : str * list str := match split_lf (snd f) with l1 :: rest => (l1, rest) | [] => ([], []) end.
+Definition ptoks (f : str * str) : list token := field_toks' (fst f) (fst (field_parts f)) (snd (field_parts f)).
+
+Lemma lcanon_field_parts f : lcanon_field f = true ->
+  exists l1 rest, split_lf (snd f) = l1 :: rest /\ field_parts f = (l1, rest) /\ valid_name (fst f) = true /\ canon_first l1 = true /\
+    forallb lcanon_cont rest = true /\ last_nonempty rest = true.
+Proof.
+  unfold lcanon_field, lcanon_value, field_parts. intros H. apply andb_true_iff in H. destruct H as [Hn Hv].
+  destruct (split_lf (snd f)) as [|l1 rest]; [discriminate|]. apply andb_true_iff in Hv. destruct Hv as [Hv H3]. apply andb_true_iff in Hv. destruct Hv as [H1 H2].
+  exists l1, rest. auto 10.
+Qed.
+
+Lemma lexf_para p : forall tail ts, forallb lcanon_field p = true -> lexf st_init tail = Ok ts ->
+  lexf st_init (print_para p ++ tail) = Ok (flat_map ptoks p ++ ts).
+Proof.
+  induction p as [|f r IH]; intros tail ts Hp Ht; [exact Ht|]. cbn [forallb] in Hp. apply andb_true_iff in Hp. destruct Hp as [Hf Hr].
+  destruct (lcanon_field_parts f Hf) as (l1 & rest & Es & Ep & Hn & H1 & H2 & H3).
+  unfold print_para in *. cbn [flat_map]. destruct f as [n v]. cbn [fst snd] in *. rewrite (print_field_lcanon n v l1 rest Es H1 H2 H3).
+  unfold ptoks at 1. rewrite Ep. cbn [fst snd]. rewrite <- !app_assoc. apply lexf_field'; [exact Hn|exact H1|exact H2|]. apply IH; assumption.
+Qed.
+
+Lemma readf_para p : forall cu ps, forallb lcanon_field p = true -> readf (flat_map ptoks p) cu ps = Ok (push_para (cu ++ p) ps).
+Proof.
+  induction p as [|f r IH]; intros cu ps Hp; [cbn [flat_map]; rewrite app_nil_r; apply readf_nil|].
+  cbn [forallb] in Hp. apply andb_true_iff in Hp. destruct Hp as [Hf Hr].
+  destruct (lcanon_field_parts f Hf) as (l1 & rest & Es & Ep & Hn & H1 & H2 & H3). destruct f as [n v]. cbn [fst snd] in *.
+  cbn [flat_map]. unfold ptoks at 1. rewrite Ep. cbn [fst snd]. rewrite field_toks_shape.
+  assert (HX : cur (flat_map ptoks r) <> Some INDENT).
+  { destruct r as [|g r']; [discriminate|]. cbn [flat_map]. unfold ptoks at 1, field_toks'. cbn. discriminate. }
+  rewrite (readf_key n _ cu ps (n, join [LF] (l1 :: rest)) (flat_map ptoks r) (read_field' n l1 rest _ HX)).
+  rewrite (IH _ ps Hr). rewrite <- app_assoc. cbn [app]. pose proof (join_split_lf v) as Hj. rewrite Es in Hj. rewrite Hj. reflexivity.
+Qed.
+
+Theorem lossy_reread_l p : lcanon_para p = true -> lossy_paragraph_from_str (print_para p) = Ok p.
+Proof.
+  unfold lcanon_para. intros H. destruct p as [|f r] eqn:Ep; [discriminate|]. rewrite <- Ep in *.
+  unfold lossy_paragraph_from_str, lossy_from_str. rewrite lex_is_lexf. change (lst_init true) with st_init.
+  rewrite <- (app_nil_r (print_para p)). rewrite (lexf_para p [] [] H (lexf_nil _)). rewrite app_nil_r.
+  unfold read_tokens. change (read_go (length (flat_map ptoks p)) (flat_map ptoks p) [] []) with (readf (flat_map ptoks p) [] []).
+  rewrite (readf_para p [] [] H). cbn [app]. unfold push_para. rewrite Ep. reflexivity.
+Qed.
